@@ -121,7 +121,7 @@ async fn register(
         .map_err(|e| {
             let mut state = plugin.state().lock().unwrap();
             if e.is_connection() && state.towers.contains_key(&tower_id) {
-                state.set_tower_status(tower_id, TowerStatus::TemporaryUnreachable);
+                state.flag_unreachable_tower(tower_id);
             }
             to_cln_error(e)
         })?;
@@ -207,7 +207,7 @@ async fn get_subscription_info(
                 .state()
                 .lock()
                 .unwrap()
-                .set_tower_status(tower_id, TowerStatus::TemporaryUnreachable);
+                .flag_unreachable_tower(tower_id);
         }
         to_cln_error(e)
     })?;
@@ -255,7 +255,7 @@ async fn get_appointment(
                 .state()
                 .lock()
                 .unwrap()
-                .set_tower_status(params.tower_id, TowerStatus::TemporaryUnreachable);
+                .flag_unreachable_tower(params.tower_id);
         }
         to_cln_error(e)
     })?;
